@@ -276,6 +276,11 @@ class IPCServer(IPCBase):
                 self.sock.settimeout(timeout)
 
     def __enter__(self) -> IPCServer:
+        # Each accepted connection starts with clean reassembly state: bytes left over
+        # from a previous client (trailing data, a partial frame) must not be parsed
+        # as part of the next client's message.
+        self.buffer = bytearray()
+        self.message_size = None
         if sys.platform == "win32":
             # NOTE: It is theoretically possible that this will hang forever if the
             # client never connects, though this can be "solved" by killing the server
